@@ -327,13 +327,6 @@ func (v *c43Violation) Error() string { return v.msg }
 
 func violationf(format string, a ...any) error { return &c43Violation{fmt.Sprintf(format, a...)} }
 
-func errStr(err error) string {
-	if err == nil {
-		return "success"
-	}
-	return "error " + fmt.Sprintf("%q", err.Error())
-}
-
 // checkSig verifies a signature blob with the independent verifier and the
 // format rule for the requested flags.
 func c43CheckSig(id *c43Ident, data, sig []byte, flags uint32) error {
@@ -951,6 +944,11 @@ func c43GenStream(rt *rapid.T, w *c43World) (*c43Stream, []string) {
 		case 4:
 			frame[3] += byte(rapid.IntRange(1, 9).Draw(rt, "flonger")) // claims more than follows (eats the next frame)
 			cls = "frame:length-too-long"
+		case 6:
+			// accepted by the size check (<= 16 MiB) but far longer than what follows
+			big := rapid.SampledFrom([]uint32{16 << 20, 16<<20 - 1, 0x00ff0000, 1 << 20, 300 << 10}).Draw(rt, "fbig")
+			frame[0], frame[1], frame[2], frame[3] = byte(big>>24), byte(big>>16), byte(big>>8), byte(big)
+			cls = "frame:length-large-legal-truncated"
 		case 5:
 			if len(body) > 1 {
 				short := rapid.IntRange(1, len(body)-1).Draw(rt, "fshorter")
